@@ -30,6 +30,11 @@ type SimSDK struct {
 	TgtPrefix string
 	// Note, when set, receives one line per acknowledged write (enters the event log of the run)
 	Note func(format string, a ...any)
+	// OnReject, when set, is told which collections (by name) a rejected ReplicateMessage call carried data of
+	OnReject func(channel string, names []string)
+	OnAck    func(channel string)
+	// OnAckData, when set, is told the end message id and the collections (by name) of an acknowledged pack that carried data
+	OnAckData func(channel string, endSeq int, names []string)
 }
 
 type SDKPart struct {
@@ -387,11 +392,44 @@ func (c *simClient) Revoke(ctx context.Context, role string, objectType entity.P
 var sdkDispatcher = (&msgstream.ProtoUDFactory{}).NewUnmarshalDispatcher()
 
 func (c *simClient) ReplicateMessage(ctx context.Context, channelName string, beginTs, endTs uint64, msgsBytes [][]byte, startPositions, endPositions []*msgpb.MsgPosition, opts ...client.ReplicateMessageOption) (*entity.MessageInfo, error) {
-	o := c.w.gate(ctx, "dw", "rm:"+channelName)
+	endSeq := -1
+	if len(endPositions) > 0 {
+		endSeq = MsgIDToSeq(endPositions[len(endPositions)-1].MsgID)
+	}
+	first := "tick"
+	for _, raw := range msgsBytes {
+		hdr := &commonpb.MsgHeader{}
+		if err := proto.Unmarshal(raw, hdr); err == nil && hdr.Base != nil && hdr.Base.MsgType != commonpb.MsgType_TimeTick && hdr.Base.MsgType != commonpb.MsgType_Replicate {
+			first = fmt.Sprintf("%s%d", hdr.Base.MsgType.String(), hdr.Base.MsgID)
+			break
+		}
+	}
+	// the key names the pack (channel, end message id, first data message), so that a fault can stick to one pack
+	o := c.w.gate(ctx, "dw", fmt.Sprintf("rm:%s:%d:%s", channelName, endSeq, first))
 	if o.CtxErr != nil {
 		return nil, o.CtxErr
 	}
 	if o.Fault != "" {
+		if c.w.OnReject != nil {
+			var names []string
+			for _, raw := range msgsBytes {
+				hdr := &commonpb.MsgHeader{}
+				if err := proto.Unmarshal(raw, hdr); err != nil || hdr.Base == nil {
+					continue
+				}
+				m, err := sdkDispatcher.Unmarshal(raw, hdr.Base.MsgType)
+				if err != nil {
+					continue
+				}
+				switch x := m.(type) {
+				case *msgstream.InsertMsg:
+					names = append(names, x.CollectionName)
+				case *msgstream.DeleteMsg:
+					names = append(names, x.CollectionName)
+				}
+			}
+			c.w.OnReject(channelName, names)
+		}
 		return nil, errSDK
 	}
 	c.w.mu.Lock()
@@ -435,6 +473,20 @@ func (c *simClient) ReplicateMessage(ctx context.Context, channelName string, be
 		ack.Msgs = append(ack.Msgs, am)
 	}
 	c.w.State.Acks = append(c.w.State.Acks, ack)
+	if c.w.OnAck != nil {
+		c.w.OnAck(channelName)
+	}
+	if c.w.OnAckData != nil {
+		var names []string
+		for _, m := range ack.Msgs {
+			if m.Type == "ins" || m.Type == "del" {
+				names = append(names, m.Name)
+			}
+		}
+		if len(names) > 0 {
+			c.w.OnAckData(channelName, ack.EndSeq, names)
+		}
+	}
 	if c.w.Note != nil {
 		var sb strings.Builder
 		for _, m := range ack.Msgs {
